@@ -287,6 +287,27 @@ def check(ctx):
     ok = s.startswith("~(") and "keywords(BinaryInfixOperand)" in s and "keywords(UnaryInfixOperand)" in s
     ctx.decide(ok, "C12-R7", lit or init, SEL, "parse_selection._initialize", "operator keywords excluded from literals", "",
                "operator words can be parsed as bare literals: `%s`" % s[:80])
+    # terminals are matched case-sensitively: the atom names NE, CL, GE ... must stay literals
+    mod_tree = mod.tree
+    caseless = []
+    n_terms = 0
+    for n in ast.walk(mod_tree):
+        if isinstance(n, ast.Call):
+            cn_ = (call_name(n) or "").split(".")[-1]
+            if cn_ in ("Keyword", "Literal", "oneOf", "one_of", "Regex", "Word", "CaselessKeyword", "CaselessLiteral"):
+                n_terms += 1
+                flag = kwarg(n, "caseless") or kwarg(n, "case_insensitive")
+                if cn_.startswith("Caseless") or (flag is not None and const(flag) is not False) or \
+                        (cn_ in ("Keyword",) and len(n.args) >= 3 and const(n.args[2]) is not False) or \
+                        (cn_ in ("oneOf", "one_of") and len(n.args) >= 2 and const(n.args[1]) is not False) or \
+                        any(isinstance(x, ast.Attribute) and x.attr in ("IGNORECASE", "I") for x in ast.walk(n)):
+                    caseless.append(n)
+    if n_terms < 3:
+        ctx.undecided("C12-R7", init, SEL, "parse_selection._initialize", "terminals are case-sensitive", "only %d pyparsing terminals found" % n_terms)
+    else:
+        ctx.decide(not caseless, "C12-R7", caseless[0] if caseless else init, SEL, "parse_selection._initialize", "keywords and operators are matched case-sensitively (%d terminals)" % n_terms, "",
+                   "`%s` matches without regard to case: an atom / residue / element name that spells a keyword or operator in capitals (NE, GE, LT, CL ...) is no longer a literal"
+                   % (src(caseless[0])[:70] if caseless else ""))
     both = sorted((set(kw) | {"to"}) & {k.strip() for k in ops})
     ctx.decide(not both, "C12-R7", cnode, SEL, "SelectionKeyword", "aliases and operators are disjoint", "", "spellings %s are both keyword and operator" % both)
     dup = [k for k in set(k for k, _, _ in kw_tab) if sum(1 for k2, _, _ in kw_tab if k2 == k) > 1]
